@@ -5,7 +5,8 @@ CL = {(7, 1): "a collection point did not ask exactly the players it should (all
       (7, 2): "the hand moved on before the last awaited answer, or did not move on with it",
       (7, 3): "a closed betting round was not followed by the next step without an external trigger",
       (7, 4): "with one answer withheld the hand moved early, or the response timeout did not move it on",
-      (7, 5): "a hand in which everybody answered settled without a result entry for each participant"}
+      (7, 5): "a hand in which everybody answered settled without a result entry for each participant",
+      (7, 6): "the hand could not go on (nobody asked to act, an unexpected hand state, or no quiescent point) although nothing was made to fail"}
 
 
 def run(res, replay=None):
